@@ -59,6 +59,8 @@ pub struct Case {
     pub fds_per_segment: Vec<usize>,
     pub fds_at_eof: usize,
     pub real_socket: bool,
+    /// scripted engine only: the application pops delivered requests every `pop_every` reads (0 = after every read)
+    pub pop_every: usize,
 }
 
 fn case_json(c: &Case) -> J {
@@ -69,6 +71,7 @@ fn case_json(c: &Case) -> J {
         ("cuts", J::Arr(c.cuts.iter().map(|x| J::u(*x as u64)).collect())),
         ("fds_per_segment", J::Arr(c.fds_per_segment.iter().map(|x| J::u(*x as u64)).collect())),
         ("fds_at_eof", J::u(c.fds_at_eof as u64)),
+        ("pop_every", J::u(c.pop_every as u64)),
     ])
 }
 
@@ -109,6 +112,35 @@ fn ownership_oracle(stream: &[u8], arrivals: &[(usize, Vec<u64>)], deliveries: &
             handed.extend_from_slice(files);
         }
         next_req += completing;
+    }
+    None
+}
+
+/// The same ownership rule when the application collects the delivered requests later than the read that
+/// completed them: what each request must carry is fixed by the read that completes it, not by when it is popped.
+fn ownership_oracle_flat(stream: &[u8], arrivals: &[(usize, Vec<u64>)], popped: &[Vec<u64>]) -> Option<(String, String)> {
+    let m = m1(stream, 51200);
+    let ends: Vec<usize> = m.events.iter().filter_map(|e| if let M1Event::Deliver { at, .. } = e { Some(*at) } else { None }).collect();
+    let mut expected: Vec<Vec<u64>> = Vec::new();
+    let mut pending: Vec<u64> = Vec::new();
+    let mut next_req = 0usize;
+    for (consumed, tags) in arrivals.iter() {
+        pending.extend_from_slice(tags);
+        let mut first = true;
+        while next_req < ends.len() && ends[next_req] <= *consumed {
+            expected.push(if first { std::mem::take(&mut pending) } else { Vec::new() });
+            first = false;
+            next_req += 1;
+        }
+    }
+    if popped.len() != expected.len() {
+        return Some(("delivery-count".into(), format!("{} requests collected, {} complete in the stream", popped.len(), expected.len())));
+    }
+    for (k, (got, want)) in popped.iter().zip(expected.iter()).enumerate() {
+        if got != want {
+            let kind = if got.len() < want.len() { "descriptor-lost-or-late" } else if got.len() > want.len() { "descriptor-handed-to-the-wrong-request" } else { "descriptor-order" };
+            return Some((kind.into(), format!("request #{} (collected later than the read that completed it) carries tags {:?}; the descriptors that had arrived up to the read completing it and were not yet handed out are {:?}", k, got, want)));
+        }
     }
     None
 }
@@ -201,6 +233,9 @@ fn sentinel_drop<F: FnOnce()>(limit: i32, drop_connection: F) -> Option<(String,
 fn exec_scripted(ctx: &mut Ctx, c: &Case, next_tag: &mut u64, limit: i32) -> Result<(), (String, String)> {
     let mut r = Runner::new(None);
     r.keep_files = true;
+    r.defer_pop = c.pop_every > 0;
+    let mut popped: Vec<Vec<u64>> = Vec::new();
+    let mut nreads = 0usize;
     let mut arrivals: Vec<(usize, Vec<u64>)> = Vec::new();
     let mut deliveries: Vec<Vec<Vec<u64>>> = Vec::new();
     let mut consumed = 0usize;
@@ -246,6 +281,13 @@ fn exec_scripted(ctx: &mut Ctx, c: &Case, next_tag: &mut u64, limit: i32) -> Res
             arrivals.push((consumed, if first { tags.clone() } else { Vec::new() }));
             deliveries.push(got);
             first = false;
+            nreads += 1;
+            if c.pop_every > 0 && nreads % c.pop_every == 0 {
+                let (_views, files) = r.pop_all();
+                for fs in files {
+                    popped.push(fs.iter().map(|f| read_tag(f.as_raw_fd())).collect());
+                }
+            }
             ctx.rep.count(match so.delivered.len() {
                 0 => "reads_completing_no_request",
                 1 => "reads_completing_one_request",
@@ -270,7 +312,16 @@ fn exec_scripted(ctx: &mut Ctx, c: &Case, next_tag: &mut u64, limit: i32) -> Res
         }
         ctx.rep.count("eof_reads_carrying_descriptors");
     }
-    if let Some(p) = ownership_oracle(&c.stream, &arrivals, &deliveries) {
+    if c.pop_every > 0 {
+        let (_views, files) = r.pop_all();
+        for fs in files {
+            popped.push(fs.iter().map(|f| read_tag(f.as_raw_fd())).collect());
+        }
+        ctx.rep.count("cases_with_late_collection");
+        if let Some(p) = ownership_oracle_flat(&c.stream, &arrivals, &popped) {
+            return Err(p);
+        }
+    } else if let Some(p) = ownership_oracle(&c.stream, &arrivals, &deliveries) {
         return Err(p);
     }
     let left = r.conn.verif_probe().files;
@@ -419,7 +470,8 @@ fn gen_case(rng: &mut Rng, real_socket: bool, big: bool) -> Case {
         fds_per_segment[s] = fds_per_segment[s].min(253);
     }
     let fds_at_eof = if !real_socket && rng.chance(1, 6) { rng.range(1, 3) } else { 0 };
-    Case { stream, cuts, fds_per_segment, fds_at_eof, real_socket }
+    let pop_every = if real_socket { 0 } else { *rng.pick(&[0usize, 0, 2, 3, 1000]) };
+    Case { stream, cuts, fds_per_segment, fds_at_eof, real_socket, pop_every }
 }
 
 pub fn run(ctx: &mut Ctx) {
@@ -451,6 +503,7 @@ pub fn replay(ctx: &mut Ctx, case: &J) {
         fds_per_segment: case.garr("fds_per_segment").iter().filter_map(|x| x.as_u64()).map(|x| x as usize).collect(),
         fds_at_eof: case.gu("fds_at_eof") as usize,
         real_socket: case.gs("engine") == "socketpair",
+        pop_every: case.gu("pop_every") as usize,
     };
     println!("stream: {}\ncuts {:?} fds per segment {:?} at eof {}", show(&c.stream), c.cuts, c.fds_per_segment, c.fds_at_eof);
     exec(ctx, &c);
